@@ -851,7 +851,9 @@ impl InnerLocustDB {
                     match ldb.lru.evict() {
                         Some(victim) => {
                             let tables = ldb.tables.read().unwrap();
-                            total_mem_usage -= tables[&victim.table].evict(&victim);
+                            // the victim may have grown since the usage was summed up (concurrent flush or load)
+                            total_mem_usage = total_mem_usage
+                                .saturating_sub(tables[&victim.table].evict(&victim));
                         }
                         None => {
                             if ldb.opts.mem_size_limit_tables > 0 {
